@@ -198,6 +198,9 @@ impl CaseSpace for Echo {
     fn name(&self) -> String {
         "command-echo-mutations".to_string()
     }
+    fn seeded(&self) -> bool {
+        true
+    }
     fn total(&self) -> usize {
         self.cases.len()
     }
@@ -423,6 +426,9 @@ impl CaseSpace for Outcomes {
     fn name(&self) -> String {
         "exactly-one-outcome".to_string()
     }
+    fn seeded(&self) -> bool {
+        true
+    }
     fn total(&self) -> usize {
         self.cases.len() + 1
     }
@@ -644,6 +650,9 @@ impl CaseSpace for Builder {
     fn name(&self) -> String {
         "command-builder-carries-every-object".to_string()
     }
+    fn seeded(&self) -> bool {
+        true
+    }
     fn total(&self) -> usize {
         BKINDS * BKINDS + BKINDS * BKINDS * BKINDS
     }
@@ -707,6 +716,9 @@ struct Queued;
 impl CaseSpace for Queued {
     fn name(&self) -> String {
         "queued-requests-at-failure".to_string()
+    }
+    fn seeded(&self) -> bool {
+        true
     }
     fn total(&self) -> usize {
         4 * 3 * 2
